@@ -16,7 +16,7 @@
    the band DBL_MAX .. 10^309, overflowing mantissas with a point or > 19 digits, and the
    sign bit being CLEAR for non-negative numerals (needs a bound on the computed exponent). *)
 From Coq Require Import NArith ZArith List Bool.
-From Qv Require Import gen.Tables_digit DigitModel DigitModelSpec DigitProofsInt DigitProofsParse DigitProofsReject DigitProofsSign DigitProofsOverflow.
+From Qv Require Import gen.Tables_digit DigitModel DigitModelSpec DigitProofsInt DigitProofsParse DigitProofsReject DigitProofsSign DigitProofsOverflow DigitProofsAccPos.
 Import ListNotations.
 Local Open Scope N_scope.
 
@@ -191,3 +191,52 @@ Theorem c09_overflow_rejected : forall sg d ds c plus es rest,
   exists p, string_to_number (sg ++ d :: ds ++ c :: plus ++ es ++ rest) = Ok p /\ p_kind p = qn_nan.
 Proof. exact stn_overflow_rejected. Qed.
 Print Assumptions c09_overflow_rejected.
+
+(* ================= Accuracy phase: the positive power-of-ten path (Digit::powerOfPositiveTen) ================= *)
+(* A finite normal double with bit pattern bits is  dbl_M bits * 2^(dbl_x bits - 1075)  with
+   dbl_M = 2^52 + bits mod 2^52 and dbl_x = bits / 2^52; all inequalities are multiplied by 2^1075.
+   c09_decode_agrees_with_spec: this decoding is the one of the specification oracle (DigitModelSpec.classify). *)
+Theorem c09_decode_agrees_with_spec : forall bits, 1 <= dbl_x bits <= 2046 ->
+  classify fmt_double bits =
+  (if 1075 <=? dbl_x bits then FFin false (dbl_M bits * 2 ^ (dbl_x bits - 1075)) 1
+   else FFin false (dbl_M bits) (2 ^ (1075 - dbl_x bits))).
+Proof. exact classify_normal. Qed.
+Print Assumptions c09_decode_agrees_with_spec.
+
+(* STRICTLY within one ulp: for every mantissa 0 < m < 2^64 (the 19/20-digit window) and every decimal
+   exponent e the double r returned for m * 10^e satisfies | m * 10^e - r | < ulp(r).
+   NOT claimed (and false): correct rounding -- ties are rounded up and the bits below the 54-bit prefix are ignored
+   (1e23, see the example).  NOT covered: the bookkeeping of stringToNumber that produces (m, e) from the text
+   (tested by the correspondence run), the negative-power path, numerals whose digits beyond the window are dropped. *)
+Theorem c09_pos_power_one_ulp : forall m e bits,
+  0 < m -> m < 2 ^ 64 -> e < 2 ^ 20 ->
+  power_of_positive_ten m e = Ok (Some bits) ->
+  1023 <= dbl_x bits <= 2046
+  /\ dbl_M bits * 2 ^ dbl_x bits < m * 10 ^ e * 2 ^ 1075 + 2 ^ dbl_x bits
+  /\ m * 10 ^ e * 2 ^ 1075 < dbl_M bits * 2 ^ dbl_x bits + 2 ^ dbl_x bits.
+Proof. exact ppt_accuracy. Qed.
+Print Assumptions c09_pos_power_one_ulp.
+
+(* EXACT when m * 5^e < 2^53 (every integer below 2^53 written with an exponent, 1e22, ...) *)
+Theorem c09_pos_power_exact : forall m e bits,
+  0 < m -> m < 2 ^ 64 -> e < 2 ^ 20 -> m * 5 ^ e < 2 ^ 53 ->
+  power_of_positive_ten m e = Ok (Some bits) ->
+  1023 <= dbl_x bits <= 2046 /\ dbl_M bits * 2 ^ dbl_x bits = m * 10 ^ e * 2 ^ 1075.
+Proof. exact ppt_exact. Qed.
+Print Assumptions c09_pos_power_exact.
+
+(* a value at or above 2^1024 never gets a finite double on this path (D43 made it NotANumber) *)
+Theorem c09_pos_power_overflow_rejected : forall m e bits,
+  0 < m -> m < 2 ^ 64 -> e < 2 ^ 20 -> 2 ^ 1024 <= m * 10 ^ e ->
+  power_of_positive_ten m e <> Ok (Some bits).
+Proof. exact ppt_overflow_rejected. Qed.
+Print Assumptions c09_pos_power_overflow_rejected.
+
+(* non-vacuity: 12345e10 exact; 7.999952e308 rejected; 1e23 is an exact tie, rounded UP by the code
+   (strtod / round-half-even gives the neighbour below) *)
+Theorem c09_pos_power_examples :
+  power_of_positive_ten 12345 10 = Ok (Some 4817745202031689728)
+  /\ power_of_positive_ten 7999952 302 = Ok None
+  /\ power_of_positive_ten 1 23 = Ok (Some 4950912855330343671).
+Proof. exact ppt_examples. Qed.
+Print Assumptions c09_pos_power_examples.
